@@ -60,6 +60,36 @@ impl<T: View> IndexSet<T> {
     pub fn insert(&mut self, x: T) -> (b: bool)
         ensures final(self)@ == iset_insert(old(self)@, x@), b == !old(self)@.contains(x@),
     { unimplemented!() }
+    // ---- further commonly used methods of indexmap::IndexSet (indexmap-2.x src/set.rs), same view ----
+    /// `len`: number of elements
+    #[verifier::external_body]
+    pub fn len(&self) -> (n: usize)
+        ensures n == self@.len(),
+    { unimplemented!() }
+    #[verifier::external_body]
+    pub fn is_empty(&self) -> (b: bool)
+        ensures b == (self@.len() == 0),
+    { unimplemented!() }
+    /// `contains`: membership (by `Eq`, which agrees with equality of the views, see the file header)
+    #[verifier::external_body]
+    pub fn contains(&self, x: &T) -> (b: bool)
+        ensures b == self@.contains(x@),
+    { unimplemented!() }
+    /// `insert_full`: like `insert`, also returns the index of the value in the set
+    #[verifier::external_body]
+    pub fn insert_full(&mut self, x: T) -> (r: (usize, bool))
+        ensures final(self)@ == iset_insert(old(self)@, x@), r.1 == !old(self)@.contains(x@),
+            0 <= r.0 < final(self)@.len(), final(self)@[r.0 as int] == x@,
+    { unimplemented!() }
+    /// `shift_remove`: removes the value if present, the order of the others is kept
+    #[verifier::external_body]
+    pub fn shift_remove(&mut self, x: &T) -> (b: bool)
+        ensures b == old(self)@.contains(x@), final(self)@ == old(self)@.filter(|y: T::V| y != x@),
+    { unimplemented!() }
+    #[verifier::external_body]
+    pub fn clear(&mut self)
+        ensures final(self)@ == Seq::<T::V>::empty(),
+    { unimplemented!() }
 }
 /// `set.into_iter().collect::<Vec<_>>()`: the elements in insertion order, no duplicates
 #[verifier::external_body]
@@ -135,6 +165,33 @@ impl<K: View, V: View> IndexMap<K, V> {
     pub fn insert(&mut self, k: K, v: V) -> (old_value: Option<V>)
         ensures final(self)@ == imap_insert(old(self)@, k@, v@),
     { unimplemented!() }
+    // ---- further commonly used methods of indexmap::IndexMap (indexmap-2.x src/map.rs), same view ----
+    #[verifier::external_body]
+    pub fn new() -> (r: IndexMap<K, V>)
+        ensures r@ == Seq::<(K::V, V::V)>::empty(),
+    { unimplemented!() }
+    #[verifier::external_body]
+    pub fn len(&self) -> (n: usize)
+        ensures n == self@.len(),
+    { unimplemented!() }
+    #[verifier::external_body]
+    pub fn is_empty(&self) -> (b: bool)
+        ensures b == (self@.len() == 0),
+    { unimplemented!() }
+    /// `contains_key` (by `Eq` of the key, which agrees with equality of the views, see the file header)
+    #[verifier::external_body]
+    pub fn contains_key(&self, k: &K) -> (b: bool)
+        ensures b == imap_has(self@, k@),
+    { unimplemented!() }
+    /// `get`: the value stored under the key
+    #[verifier::external_body]
+    pub fn get(&self, k: &K) -> (r: Option<&V>)
+        ensures r.is_some() == imap_has(self@, k@), r.is_some() ==> self@[imap_pos(self@, k@)] == (k@, r.unwrap()@),
+    { unimplemented!() }
+    #[verifier::external_body]
+    pub fn clear(&mut self)
+        ensures final(self)@ == Seq::<(K::V, V::V)>::empty(),
+    { unimplemented!() }
 }
 /// `map.into_iter().collect::<Vec<_>>()`: the entries in insertion order, keys pairwise different
 #[verifier::external_body]
@@ -180,6 +237,38 @@ impl<K: View, V: View> HashMap<K, V> {
     #[verifier::external_body]
     pub fn insert(&mut self, k: K, v: V) -> (old_value: Option<V>)
         ensures final(self)@ == old(self)@.insert(k@, v@),
+    { unimplemented!() }
+    // ---- further commonly used methods of std::collections::HashMap (same source), same view ----
+    #[verifier::external_body]
+    pub fn new() -> (r: HashMap<K, V>)
+        ensures r@ == Map::<K::V, V::V>::empty(),
+    { unimplemented!() }
+    #[verifier::external_body]
+    pub fn len(&self) -> (n: usize)
+        ensures self@.dom().finite(), n == self@.dom().len(),
+    { unimplemented!() }
+    #[verifier::external_body]
+    pub fn is_empty(&self) -> (b: bool)
+        ensures b == (self@ == Map::<K::V, V::V>::empty()),
+    { unimplemented!() }
+    /// `contains_key` (by `Eq` of the key, which agrees with equality of the views, see the file header)
+    #[verifier::external_body]
+    pub fn contains_key(&self, k: &K) -> (b: bool)
+        ensures b == self@.dom().contains(k@),
+    { unimplemented!() }
+    #[verifier::external_body]
+    pub fn get(&self, k: &K) -> (r: Option<&V>)
+        ensures r.is_some() == self@.dom().contains(k@), r.is_some() ==> r.unwrap()@ == self@[k@],
+    { unimplemented!() }
+    /// `remove`: the entry is gone, the old value (if any) is returned
+    #[verifier::external_body]
+    pub fn remove(&mut self, k: &K) -> (r: Option<V>)
+        ensures final(self)@ == old(self)@.remove(k@), r.is_some() == old(self)@.dom().contains(k@),
+            r.is_some() ==> r.unwrap()@ == old(self)@[k@],
+    { unimplemented!() }
+    #[verifier::external_body]
+    pub fn clear(&mut self)
+        ensures final(self)@ == Map::<K::V, V::V>::empty(),
     { unimplemented!() }
 }
 /// `map.into_iter().collect::<Vec<_>>()`: every entry exactly once, in an UNSPECIFIED order
